@@ -676,7 +676,6 @@ func c02Gen(c *Ctx) {
 				b.op(7, 0, 0, 0)
 				b.op(14, 0, 0, 0)
 				b.op(15, 0, 0, 0)
-				b.op(shape, 0, 0, 0)
 				if k < 4 || b.inits || b.clrd {
 					b.op(16, 1, 0, 0) // (on an untouched zero value of the cmp variant this is the known finding F13: kept to its own cases)
 				}
@@ -717,9 +716,27 @@ func c02Gen(c *Ctx) {
 			}
 		}
 	}
-	c.Each(len(zcases), func(i int, t *T) {
-		t.Try(zfam[i]+"-"+c02Kinds[zcases[i][0]], zcases[i], true)
-	})
+	// two batches: first the cases without a Shape observation (a failure there is a map-level one and is
+	// recorded, hence shrunk and reported, before any height-only disagreement)
+	for pass := 0; pass < 2; pass++ {
+		var idx []int
+		for i, zc := range zcases {
+			_, _, ops, _ := c02Parse(zc)
+			has := false
+			for j := 0; j+3 < len(ops); j += 4 {
+				if ops[j] == 18 {
+					has = true
+				}
+			}
+			if has == (pass == 1) {
+				idx = append(idx, i)
+			}
+		}
+		c.Each(len(idx), func(j int, t *T) {
+			i := idx[j]
+			t.Try(zfam[i]+"-"+c02Kinds[zcases[i][0]], zcases[i], true)
+		})
+	}
 	c.Note(fmt.Sprintf("zero-value matrix: %d cases (every method alone / after Clear / in pairs on the zero value of the six instantiations)", len(zcases)))
 
 	// ---- 2. exhaustive small scope: keys {1,2,3} x raw heights {1,2,3,32}, reduced alphabet, all sequences of length <= L
